@@ -2,7 +2,7 @@
 
 Fault enumeration at the learner seam: every assignment of a behaviour
 (good / noise / constant / raises the recognised error / anti-correlated /
-memorises its training rows) to every fold's estimator (all 6^folds for
+memorises its training rows / overfits: perfect on training rows, poor on held-out rows) to every fold's estimator (all 6^folds for
 folds <= 4), over label encodings, lower/higher-is-better best features,
 text/Parquet, worker schedules.  Oracle: accept-count/fallback rule from the
 property statement, re-computed with the reference TDC and the *true* target
@@ -17,22 +17,22 @@ import numpy as np
 
 from .. import datagen, estimators, refmodel, world
 from ..driver import clone
-from ..util import derive_seed, digest
+from ..util import derive_seed, digest, exc_is_domain
 from ..worlds import pipeline as P
 
 PROPERTY = "C07"
 LEVEL = "fault_enumeration"
 QUICK_N = 10**6
 SCENARIO_TIMEOUT = 240
-MODES = ["good", "noise", "constant", "raise_recognised", "anti", "memorise"]
+MODES = ["good", "noise", "constant", "raise_recognised", "anti", "memorise", "overfit"]
 PROBES = ["fallback_taken", "fallback_desc_false", "model_kept", "all_untrained", "some_untrained", "explicit_error",
           "memorise_worse_branch", "override_on", "enc_pm1", "enc_10", "enc_bool", "parquet", "workers>1",
           "zero_scores_returned", "multi_file", "confidence_checked", "confidence_desc_false", "fold_aligned_feature",
-          "folds_disagree_on_best_feature"]
+          "folds_disagree_on_best_feature", "all_trained_but_fallback"]
 RULE = (
     "For each sampled data set (planted strong feature, lower-is-better in half of them; 3 label encodings; text/Parquet) "
-    "and fold count, EVERY assignment of {good, noise, constant, raise_recognised, anti, memorise} to the folds' estimators "
-    "is executed (6^folds, folds <= 4; sampled for 5-6 folds), override off and on, workers under a seeded schedule; a "
+    "and fold count, EVERY assignment of {good, noise, constant, raise_recognised, anti, memorise, overfit} to the folds' estimators "
+    "is executed (7^folds, folds <= 4; sampled for 5-6 folds), override off and on, workers under a seeded schedule; a "
     "fault-free first pass with the same seed identifies each fold's held-out rows. Oracle: with override off either "
     "accepted(returned scores) >= max feat_pass, or the returned scores are the best feature's column with its direction; "
     "assign_confidence on the returned (scores, descs) must compete and count in the returned direction. distinct = "
@@ -49,7 +49,7 @@ REAL = ["mokapot.brew", "mokapot.model.Model.fit", "mokapot.dataset.update_label
         "mokapot.assign_confidence", "pandas", "pyarrow", "triqler", "file system (/dev/shm)"]
 STUBS = ["estimator -> vsim.estimators.RecordingLDA with a per-fold fault mode", "joblib.Parallel -> vsim.sched.SimParallel"]
 EXHAUSTIVE = False
-EXHAUSTIVE_SUBSPACES = ["all 6^folds fault-mode assignments for each sampled (data set, folds<=4, encoding, override)"]
+EXHAUSTIVE_SUBSPACES = ["all 7^folds fault-mode assignments for each sampled (data set, folds<=4, encoding, override)"]
 
 
 def _data_params(rng, label_enc, lower):
@@ -175,7 +175,9 @@ def run_scenario(scn, workdir):
     p1 = P.run_pipeline(tables, cfg1, workdir, "pass1", fmt=scn["format"], row_group=scn.get("row_group"),
                         sched_desc={"mode": "fifo"}, knobs=None, stop_after="brew")
     if p1.exc is not None:
-        return uninf(f"fault-free first pass fails: {p1.error}"[:160])
+        if exc_is_domain(p1.exc):
+            return uninf(f"fault-free first pass fails: {p1.error}"[:160])
+        return viol("run_failed", f"fault-free run with override failed: {p1.error}", **p1.err_sig())
     held = []
     for m in p1.models:
         tags = set()
@@ -258,8 +260,10 @@ def run_scenario(scn, workdir):
             probes["fallback_desc_false"] = 1
     else:
         probes["model_kept"] = 1
-    if "memorise" in modes and all(trained):
+    if ("memorise" in modes or "overfit" in modes) and all(trained):
         probes["memorise_worse_branch"] = 1
+    if all(trained) and is_feature is not None:
+        probes["all_trained_but_fallback"] = 1
     if not cfg["override"]:
         if acc < best:
             ok = False
